@@ -47,6 +47,7 @@ type VC struct {
 	modCache     map[string][]modTarget
 	concreteTags []string
 	cover        string
+	sortDecls    []string
 	axiomsUsed   []string
 	coverIdx     int
 	mods         map[*ssa.BasicBlock]map[string]bool // loop header -> components written in the loop (from the discovery pass)
@@ -73,6 +74,7 @@ func (vc *VC) prelude() {
 		"(assert (not (isSub 0)))",
 		// element addressing: ix(off,i) = off+i, kept as an uninterpreted symbol so that quantifier patterns over
 		// slice elements are not destroyed by arithmetic normalisation
+		"(define-fun ixalt ((b Bool)) Bool b)",
 		"(declare-fun ix (Int Int) Int)",
 		"(assert (forall ((o Int) (i Int)) (! (= (ix o i) (+ o i)) :pattern ((ix o i)))))",
 	)
@@ -83,6 +85,10 @@ func (vc *VC) declareOnce(key, decl string) {
 		return
 	}
 	vc.declared[key] = true
+	if strings.HasPrefix(key, "sort:") {
+		vc.sortDecls = append(vc.sortDecls, decl)
+		return
+	}
 	vc.decls = append(vc.decls, decl)
 }
 
@@ -135,6 +141,14 @@ func (vc *VC) oblige(kind, tag string, pos token.Pos, guard, goal, info string) 
 		name += "@conc"
 	}
 	vc.facts = append(vc.facts, Fact{Oblig: true, Name: name, Kind: kind, Term: sImp(guard, goal), Pos: pos, Tag: tag, Info: info})
+}
+
+func (vc *VC) compKeys() map[string]bool {
+	m := map[string]bool{}
+	for k := range vc.compSort {
+		m[k] = true
+	}
+	return m
 }
 
 // comp registers a state component and returns its initial constant.
@@ -997,6 +1011,16 @@ func (ex *Exec) loadLoc(st *State, l *Loc) string {
 		return sSel(ex.get(st, l.Key, "(Array Int "+l.Sort+")"), l.Base)
 	case LElem:
 		ex.permCheckElem(l.Key, l.Base, false)
+		return sSel(sSel(ex.get(st, l.Key, "(Array Int (Array Int "+l.Sort+"))"), l.Base), l.Idx)
+	}
+	return sSel(ex.get(st, l.Key, "(Array Int "+l.Sort+")"), l.Base)
+}
+
+func (ex *Exec) loadLocNoPerm(st *State, l *Loc) string {
+	switch l.Kind {
+	case LField:
+		return sSel(ex.get(st, l.Key, "(Array Int "+l.Sort+")"), l.Base)
+	case LElem:
 		return sSel(sSel(ex.get(st, l.Key, "(Array Int (Array Int "+l.Sort+"))"), l.Base), l.Idx)
 	}
 	return sSel(ex.get(st, l.Key, "(Array Int "+l.Sort+")"), l.Base)
